@@ -1,7 +1,7 @@
 //! Thin driver binary. All logic lives in /verif/harness, mounted inside the
 //! `mos` crate (so it has crate-private access).
 //!
-//! This binary also owns the entropy seam: std obtains its per-thread
+//! This binary also owns the entropy seam (and with it the process id and the time of day): std obtains its per-thread
 //! `RandomState` keys from libc's `getrandom` through a weak symbol; defining
 //! the symbol here interposes it for the whole process.
 
@@ -24,6 +24,42 @@ pub unsafe extern "C" fn getrandom(buf: *mut c_void, len: usize, flags: c_uint) 
         }
     }
     syscall(SYS_GETRANDOM, buf, len, flags) as isize
+}
+
+const SYS_GETPID: c_long = 39; // x86_64
+const SYS_CLOCK_GETTIME: c_long = 228; // x86_64
+const CLOCK_REALTIME: i32 = 0;
+
+#[repr(C)]
+pub struct Timespec {
+    tv_sec: i64,
+    tv_nsec: i64,
+}
+
+/// The process id is one more thing that differs between two runs of a program: a simulated process
+/// (a thread with an entropy seed) gets a process id of its own.
+#[no_mangle]
+pub extern "C" fn getpid() -> i32 {
+    match mos_simrt::entropy::sim_pid() {
+        Some(p) => p as i32,
+        None => unsafe { syscall(SYS_GETPID) as i32 },
+    }
+}
+
+/// ... and so is the time of day (CLOCK_REALTIME only; monotonic clocks stay real).
+///
+/// # Safety
+/// Called by libc users with a valid timespec pointer.
+#[no_mangle]
+pub unsafe extern "C" fn clock_gettime(clock: i32, ts: *mut Timespec) -> i32 {
+    if clock == CLOCK_REALTIME && !ts.is_null() {
+        if let Some(secs) = mos_simrt::entropy::sim_realtime_secs() {
+            (*ts).tv_sec = secs;
+            (*ts).tv_nsec = 0;
+            return 0;
+        }
+    }
+    syscall(SYS_CLOCK_GETTIME, clock as c_long, ts) as i32
 }
 
 fn main() {
